@@ -44,6 +44,20 @@ class Stochastic(BigSMILESbase):
             raise RuntimeError("Stochastic object '" + self._raw_text + "' does not end with '}'.")
 
         middle_text = self._raw_text[1 : self._raw_text.rfind("}")]
+        # Square brackets (bond descriptors and bracket atoms) never nest and have to be balanced,
+        # otherwise the terminal bond descriptors would be cut out of the wrong text.
+        bracket_open = False
+        for char in middle_text:
+            if char == "[":
+                if bracket_open:
+                    raise RuntimeError(f"Nested '[' in stochastic object {self._raw_text}.")
+                bracket_open = True
+            elif char == "]":
+                if not bracket_open:
+                    raise RuntimeError(f"Unbalanced ']' in stochastic object {self._raw_text}.")
+                bracket_open = False
+        if bracket_open:
+            raise RuntimeError(f"Unclosed '[' in stochastic object {self._raw_text}.")
         if middle_text[middle_text.find("]") + 1] == "}":
             raise RuntimeError(
                 f"Empty stochastic object {middle_text} that have only a single terminal bond descriptor are not supported."
